@@ -1016,6 +1016,14 @@ func TestC19(t *testing.T) {
 									map[string]any{"edge": ed, "fault_at": at, "fault_kind": kind, "store_ops": fenv.store.log, "real_reply": fr.Reply})
 								continue
 							}
+							// a cookie handed out for a session that the failed write never stored entitles nobody (no
+							// clause forbids it: the user did present the password) - made visible as drift
+							if fr.SetCookie != "" {
+								if _, stored := fenv.store.clone()["/sessions/"+fr.SetCookie]; !stored {
+									rep.DriftCase(fkey+":cookie-without-session", "the request hands out a session cookie although the store operation that should have stored the session failed",
+										map[string]any{"edge": ed, "fault_at": at, "fault_kind": kind, "store_ops": fenv.store.log, "real_reply": fr.Reply})
+								}
+							}
 							// a request that failed half-way must not leave the running server out of step with its store
 							if ed.Act.N == "PutService" || ed.Act.N == "DeleteService" {
 								ffresh, ferr := newIdpSrv(newMapStore(fenv.store.clone()))
